@@ -10,6 +10,7 @@
 import GoBT.Addr.Address
 import GoBT.Addr.Base58Lemmas
 import GoBT.Gen.Limits
+import GoBT.Script.WriteReviewLib
 namespace GoBT.C15
 open GoBT GoBT.Addr
 
@@ -114,5 +115,13 @@ theorem version_bytes_match :
     GoBT.Gen.intConsts.lookup "bscript.hashP2PKH" = some (verMain.toNat : Int) ∧
     GoBT.Gen.intConsts.lookup "bscript.hashTestNetP2PKH" = some (verTest.toNat : Int) := by
   decide +kernel
+
+/-- Regenerated fact (go/ssa write-site table of packages bt and bscript, `Gen/WritesLib.lean`): in the address and P2PKH constructors every
+    store, `copy`, `append` and every call that writes through a parameter or a `*Script` targets a buffer allocated in the
+    same function (or is a reviewed part of the function's contract), and every byte slice handed to another package
+    goes to a reviewed read-only function (GoBT/Script/WriteReviewLib.lean).  Code that appends to or writes into a
+    slice it was handed — a previous-output script, a caller's hash, a destination's old buffer — adds a row with a
+    `param:` / `field:` / `deref:` origin and breaks this obligation. -/
+theorem lib_writes_only_fresh_buffers : GoBT.Script.WriteReviewLib.writesOkFor "C15" = true := by decide +kernel
 
 end GoBT.C15
